@@ -9,6 +9,7 @@ from ..flow import Defs, backward_slice, slice_calls, rv_operands
 from ..tables import guard_context
 
 LEVEL = 'other'
+TECHNIQUE = 'static analysis: ordering / must-pass-through on the async bodies of the acceptor and the workers (pre-transform MIR with real Yield terminators, private sync/async helpers inlined), provenance of timeouts and joined futures, who-may-call socket options'
 CLAUSE = ('the acceptor drops the listener set before it tells any worker to shut down and always sends the completion; in forced mode '
           'nothing is awaited before that; in graceful mode the configured timeout, unmodified, bounds a loop that joins all workers; the '
           'worker closes its inbox, drains it, waits for tracked connections under the configured timeout, then reports completion; every '
